@@ -92,6 +92,7 @@ ArityAtoms == { Lit(<<"to_string", "(", ")">>, Reject, Unk), Lit(<<"split", "(",
                 Lit(<<"to_integer", "(", ")">>, Reject, Unk) }
 Atoms == ArityAtoms \cup IntAtoms \cup StrAtoms \cup BoolAtoms \cup ArrAtoms \cup TupAtoms \cup EnvAtoms
 Var == [k |-> "var"]
+Pick(S, txts) == {a \in S : a.txt \in txts}
 
 ---------------------------------------------------------------------------
 (* operators *)
@@ -111,6 +112,11 @@ BinE(o, a, b) == [k |-> "bin", o |-> o, a |-> a, b |-> b]
 UnE(o, a) == [k |-> "un", o |-> o, a |-> a]
 IfE(a, b, c) == [k |-> "if", a |-> a, b |-> b, c |-> c]
 LetE(a, b) == [k |-> "let", a |-> a, b |-> b]
+(* scoping: a name bound by let keeps the value it had where it was DEFINED, whatever is bound to the same name later  *)
+(*   w = "y":      let x = A in let y = x in let x = B in y      (y is A, not B)                                     *)
+(*   w = "x":      let x = A in let y = x in let x = B in x      (x is B)                                            *)
+(*   w = "rebind": let x = A in let x = x + 2 in x               (the inner x is defined from the outer one)          *)
+ScopeE(a, b, w) == [k |-> "scope", a |-> a, b |-> b, w |-> w]
 IdxE(a, b) == [k |-> "idx", a |-> a, b |-> b]
 AccE(a, n) == [k |-> "acc", a |-> a, n |-> n]
 Call1(f, a) == [k |-> "call1", f |-> f, a |-> a]
@@ -130,6 +136,10 @@ Text(e) ==
     [] e.k = "un"   -> P(<<e.o>> \o Text(e.a))
     [] e.k = "if"   -> P(Text(e.a) \o <<"?">> \o Text(e.b) \o <<":">> \o Text(e.c))
     [] e.k = "let"  -> P(<<"let", "x", "=">> \o Text(e.a) \o <<"in">> \o Text(e.b))
+    [] e.k = "scope" -> IF e.w = "rebind"
+                        THEN P(<<"let", "x", "=">> \o Text(e.a) \o <<"in">> \o P(<<"let", "x", "=", "(", "x", "+", "2", ")", "in", "x">>))
+                        ELSE P(<<"let", "x", "=">> \o Text(e.a) \o <<"in">> \o
+                               P(<<"let", "y", "=", "x", "in">> \o P(<<"let", "x", "=">> \o Text(e.b) \o <<"in", e.w>>)))
     [] e.k = "idx"  -> P(Text(e.a) \o <<"[">> \o Text(e.b) \o <<"]">>)
     [] e.k = "acc"  -> P(Text(e.a) \o <<".", ToString(e.n)>>)
     [] e.k = "call1" -> <<e.f, "(">> \o Text(e.a) \o <<")">>
@@ -171,6 +181,10 @@ TypeOf(e, xt) ==
                        IF AnyBad(<<a, b, c>>) THEN Worst(<<a, b, c>>)
                        ELSE IF a = BoolT /\ b = c THEN b ELSE Reject
     [] e.k = "let"  -> LET a == TypeOf(e.a, xt) IN IF Bad(a) THEN a ELSE TypeOf(e.b, a)
+    [] e.k = "scope" -> LET a == TypeOf(e.a, xt) IN
+                        IF Bad(a) THEN a
+                        ELSE IF e.w = "rebind" THEN (IF a = IntT THEN IntT ELSE Reject)
+                        ELSE LET b == TypeOf(e.b, a) IN IF Bad(b) THEN b ELSE IF e.w = "y" THEN a ELSE b
     [] e.k = "idx"  -> LET a == TypeOf(e.a, xt)  b == TypeOf(e.b, xt) IN
                        IF AnyBad(<<a, b>>) THEN Worst(<<a, b>>)
                        ELSE IF a.k = "arr" /\ b = IntT THEN a.e[1] ELSE Reject
@@ -278,6 +292,10 @@ Eval(e, xv, env) ==
                        IF IsErr(a) \/ a.t = "unk" THEN a
                        ELSE IF a.v THEN Eval(e.b, xv, env) ELSE Eval(e.c, xv, env)
     [] e.k = "let"  -> LET a == Eval(e.a, xv, env) IN Eval(e.b, a, env)   \* x occurs in every generated body; an error in the binding surfaces there
+    [] e.k = "scope" -> LET a == Eval(e.a, xv, env) IN
+                        IF e.w = "y" THEN a                                \* B is a literal: nothing of it can surface
+                        ELSE IF e.w = "x" THEN (IF IsErr(a) \/ a.t = "unk" THEN Unk ELSE Eval(e.b, a, env))   \* whether an unused failing binding surfaces is not documented
+                        ELSE Eval(BinE("+", Var, CHOOSE t \in Atoms : t.txt = <<"2">>), a, env)
     [] e.k = "idx"  -> LET a == Eval(e.a, xv, env)  b == Eval(e.b, xv, env) IN
                        IF IsErr(b) THEN b ELSE IF IsErr(a) THEN a
                        ELSE IF a.t = "unk" \/ b.t = "unk" THEN Unk
@@ -334,6 +352,7 @@ Wraps(e, oth, bops) ==
   \cup {BinE(o, e, a) : o \in bops, a \in oth} \cup {BinE(o, a, e) : o \in bops, a \in oth}
   \cup {IfE(e, a, b) : a \in oth, b \in oth} \cup {IfE(c, e, a) : c \in BoolAtoms, a \in oth} \cup {IfE(c, a, e) : c \in BoolAtoms, a \in oth}
   \cup {LetE(e, b) : b \in {Var, BinE("+", Var, Var), BinE("==", Var, Var), TmplE(Var), BinE("_:", Var, ArrE(Var, Var))}}
+  \cup {ScopeE(e, b, w) : b \in Pick(Atoms, {<<"0">>, <<Q \o "a" \o Q>>, <<"true">>}), w \in {"y", "x"}} \cup {ScopeE(e, e, "rebind")}
   \cup {IdxE(e, a) : a \in oth} \cup {IdxE(a, e) : a \in oth}
   \cup {AccE(e, n) : n \in {0, 1, 2}}
   \cup {Call1(f, e) : f \in Funs1}
@@ -342,7 +361,6 @@ Wraps(e, oth, bops) ==
   \cup {ArrE(e, a) : a \in oth} \cup {ArrE(a, e) : a \in oth}
   \cup {TupE(e, a) : a \in oth}
 
-Pick(S, txts) == {a \in S : a.txt \in txts}
 RepSmall == Pick(Atoms, {<<"0">>, <<"2">>, <<"64">>, <<"(", "-", "1", ")">>, <<"9223372036854775807">>,
                          <<Q \o "a" \o Q>>, <<Q \o "7" \o Q>>, <<Q \o "(" \o Q>>, <<"true">>, <<"false">>,
                          <<"[", "1", ",", "2", "]">>, <<"[", Q \o "a" \o Q, ",", Q \o "7" \o Q, "]">>,
